@@ -279,6 +279,7 @@ type idpAnswer struct {
 	TokenType string `json:"token_type,omitempty"`
 	Raw       string `json:"raw,omitempty"`   // for kind raw: body sent verbatim
 	Extra     bool   `json:"extra,omitempty"` // add unknown members
+	Big       bool   `json:"big,omitempty"`   // a body of more than 8 KiB (large group claims, padding)
 }
 
 func (a idpAnswer) wire() string {
@@ -387,6 +388,9 @@ func newFakeIDP() *fakeIDP {
 				m["session_state"] = "abc"
 				m["nested"] = map[string]any{"a": []int{1, 2}}
 			}
+			if a.Big {
+				m["groups"] = strings.Repeat("group-of-the-user,", 500)
+			}
 			b, _ := json.Marshal(m)
 			w.Header().Set("Content-Type", "application/json")
 			_, _ = w.Write(b)
@@ -416,8 +420,51 @@ type spyCall struct {
 	Fault   int
 }
 
+// tokLedger remembers, per session id, every token set a SetTokenResponse call handed to the store (executed calls only).
+// Whatever GetTokenResponse returns later must be one of them: session data never changes except through the store's
+// write methods (no aliasing of the caller's or the store's structures, no write that bypasses validation).
+type tokLedger struct {
+	mu      sync.Mutex
+	written map[string][]oidc.TokenResponse
+	bad     []map[string]any
+}
+
+func sameTokens(a, b oidc.TokenResponse) bool {
+	return a.IDToken == b.IDToken && a.AccessToken == b.AccessToken && a.RefreshToken == b.RefreshToken &&
+		a.AccessTokenExpiresAt.UnixNano() == b.AccessTokenExpiresAt.UnixNano()
+}
+
+func (l *tokLedger) wrote(id string, t oidc.TokenResponse) {
+	l.mu.Lock()
+	defer l.mu.Unlock()
+	if l.written == nil {
+		l.written = map[string][]oidc.TokenResponse{}
+	}
+	l.written[id] = append(l.written[id], t)
+}
+
+func (l *tokLedger) read(id string, t oidc.TokenResponse) {
+	l.mu.Lock()
+	defer l.mu.Unlock()
+	for _, w := range l.written[id] {
+		if sameTokens(w, t) {
+			return
+		}
+	}
+	l.bad = append(l.bad, map[string]any{"sid": id, "returned": t, "ever_written_under_this_id": len(l.written[id])})
+}
+
+func (l *tokLedger) takeBad() []map[string]any {
+	l.mu.Lock()
+	defer l.mu.Unlock()
+	b := l.bad
+	l.bad = nil
+	return b
+}
+
 type spyStore struct {
 	rec    *recorder
+	ledger *tokLedger
 	real   oidc.SessionStore
 	mu     sync.Mutex
 	faults []int
@@ -459,6 +506,9 @@ func (s *spyStore) SetTokenResponse(ctx context.Context, id string, t *oidc.Toke
 	cp := *t
 	var err error
 	if f != 1 {
+		if s.ledger != nil {
+			s.ledger.wrote(id, cp)
+		}
 		err = s.real.SetTokenResponse(ctx, id, t)
 	}
 	if f != 0 {
@@ -474,10 +524,18 @@ func (s *spyStore) GetTokenResponse(ctx context.Context, id string) (*oidc.Token
 	if f != 1 {
 		t, err = s.real.GetTokenResponse(ctx, id)
 	}
+	if t != nil && s.ledger != nil {
+		s.ledger.read(id, *t)
+	}
 	if f != 0 {
 		t, err = nil, errInjected
 	}
-	s.record(spyCall{Op: "gettok", ID: id, GotTok: t, Err: err != nil, Fault: f})
+	var snap *oidc.TokenResponse // a snapshot: what the caller does with the returned structure later must not change the record
+	if t != nil {
+		cp := *t
+		snap = &cp
+	}
+	s.record(spyCall{Op: "gettok", ID: id, GotTok: snap, Err: err != nil, Fault: f})
 	return t, err
 }
 func (s *spyStore) SetAuthorizationState(ctx context.Context, id string, a *oidc.AuthorizationState) error {
@@ -581,6 +639,7 @@ type hCfg struct {
 	LogoutPath, LogoutURI  string
 	Store                  string
 	Abs, Idle              time.Duration
+	Debug                  bool   // every logging scope of the service at debug level (LoggingRoundTripper around the IdP client, ...)
 	RealKeys               string // "" scripted key source | "static" | "fetcher": the real DefaultJWKSProvider on the configured JWKS
 }
 
@@ -686,15 +745,18 @@ type hWorld struct {
 	cancel context.CancelFunc
 	known  map[string]bool // token strings whose oracle row was already emitted
 	rec    *recorder
+	ledger *tokLedger
 }
 
 func newHWorld(c hCfg) *hWorld {
+	setLogDebug(c.Debug)
 	ctx, cancel := context.WithCancel(context.Background())
 	rec := &recorder{}
 	w := &hWorld{cfg: c, idp: newFakeIDP(), jwks: &scriptedJWKS{ok: true, rec: rec}, pool: internal.NewTLSConfigPool(ctx), cancel: cancel, known: map[string]bool{}, rec: rec}
 	w.idp.rec = rec
 	w.rig = newStoreRig(c.Store, c.Abs, c.Idle, 1_700_000_000_000_000_000)
-	w.spy = &spyStore{real: w.rig.inst[0], rec: rec}
+	w.ledger = &tokLedger{}
+	w.spy = &spyStore{real: w.rig.inst[0], rec: rec, ledger: w.ledger}
 	w.oc = c.proto(w.idp.srv.URL)
 	if c.RealKeys != "" {
 		p := oidc.NewJWKSProvider(&configv1.Config{Chains: []*configv1.FilterChain{{Name: "c", Filters: []*configv1.Filter{{Type: &configv1.Filter_Oidc{Oidc: w.oc}}}}}}, w.pool)
